@@ -65,9 +65,34 @@ def run(seed, check, tier="quick"):
     if rc not in (0, 1): print(out[-2500:])
     return rc
 
+def prun(seed, check, tier="quick"):
+    """Like run, but in a scratch worktree and a scratch work directory: /repo is not touched, runs can be parallel."""
+    patch = seed if seed.endswith(".diff") else os.path.join(seed, "patch.diff")
+    wt, wk = "/tmp/sr-%d" % os.getpid(), "/tmp/sw-%d" % os.getpid()
+    sh(["git", "-C", "/repo", "worktree", "add", "-q", "--detach", wt, "HEAD"])
+    try:
+        rc, out = sh(["git", "-C", wt, "apply", os.path.abspath(patch)])
+        if rc:
+            print("patch does not apply:", out); return 3
+        t0 = time.time()
+        p = subprocess.run(["./check", check, "--tier", tier], cwd="/verif", env=dict(ENV, VERIF_REPO=wt, VERIF_WORK=wk),
+                           stdout=subprocess.PIPE, stderr=subprocess.STDOUT, text=True, timeout=3600)
+        rc, out = p.returncode, p.stdout
+    finally:
+        sh(["git", "-C", "/repo", "worktree", "remove", "--force", wt])
+        shutil.rmtree(wt, ignore_errors=True)
+        shutil.rmtree(wk, ignore_errors=True)
+    lines = [l for l in out.splitlines() if l.startswith(("VIOLATION", "OK ", "KNOWN", "MACHINERY", "  key="))]
+    print("check %s on %s: exit %d (%.0fs)" % (check, patch, rc, time.time() - t0))
+    print("\n".join(lines[:12]))
+    if rc not in (0, 1): print(out[-2500:])
+    return rc
+
 if __name__ == "__main__":
     if sys.argv[1] == "verify":
         r = verify(sys.argv[2], sys.argv[3], sys.argv[4], sys.argv[5:])
         print(json.dumps(r, indent=1)); sys.exit(0 if r["confirmed"] else 1)
     elif sys.argv[1] == "run":
         sys.exit(run(*sys.argv[2:]))
+    elif sys.argv[1] == "prun":
+        sys.exit(prun(*sys.argv[2:]))
